@@ -134,7 +134,7 @@ Proof.
   destruct (dec_fields_nth _ _ _ _ _ _ _ Hd Hf) as [r1 [Hr Hx]]. rewrite Hk in Hx.
   destruct (validate orc (CStruct rs) (SStruct nl fs)); [|exact I].
   destruct (ctor_ok (SStruct nl fs) (CStruct rs)) eqn:Hct; [|exact I].
-  cbn [ctor_ok] in Hct. pose proof (ctor_fields_nth _ _ _ _ _ Hct Hr Hf) as Hc1.
+  cbn [ctor_ok] in Hct. apply andb_true_iff in Hct. destruct Hct as [Hct _]. pose proof (ctor_fields_nth _ _ _ _ _ Hct Hr Hf) as Hc1.
   rewrite (Hv _ _ Hx) in Hc1. discriminate.
 Qed.
 
